@@ -14,7 +14,7 @@ LEVEL_NOTE = ("Lean theorems predictExp_readonly / predict_readonly (a learning 
               "'queried bandit vs never-queried deep copy with all random-stream positions copied across' under arbitrary "
               "continuations, n_jobs in {1,2}.")
 
-PROFILE = {"name": "C10", "lp": G.CF_KINDS + G.LIN_KINDS, "np": [None, None] + G.NP_KINDS,
+PROFILE = {"name": "C10", "allow_scale": True, "lp": G.CF_KINDS + G.LIN_KINDS, "np": [None, None] + G.NP_KINDS,
            "weights": {"fit": 1, "pfit": 3, "query": 6, "add": 1, "rem": 0.7, "warm": 0.5}, "n_ops": (5, 12)}
 
 
